@@ -47,7 +47,7 @@ class Color(enum.Enum):
 
 UTC = datetime.timezone.utc
 LEAVES = {
-    "str": (str, [("a", "a"), ("é x", "é x")], None),
+    "str": (str, [("a", "a"), ("é x", "é x"), ("", "")], None),   # the empty string is a value, not an absent one
     "int": (int, [(1, 1), (-2, -2)], "zz"),
     "float": (float, [(1.5, 1.5), (-0.25, -0.25)], "zz"),
     "bool": (bool, [(True, True), (False, False)], None),
